@@ -207,7 +207,7 @@ def run_case(ctx, case):
     if kind in ("closed", "solids"):
         ref = by_step[steps[0]]
         if all(c in ref for c in allcells):
-            keys = (["sys_%s" % e for e in els] if kind == "solids" else ["tm_%s" % e for e in els] + ["molH", "molO", "kgw"])
+            keys = (["sys_%s" % e for e in els] if kind == "solids" else ["tm_%s" % e for e in els] + ["molH", "molO"])
             for st in steps[1:]:
                 cur = by_step[st]
                 if not all(c in cur for c in allcells):
